@@ -20,7 +20,16 @@ bindings (JSON lists)                        model constructor (PB/Dag.v)
 import itertools
 import random
 
-from harness.core import gz, gbool, gstr, glist, gnat
+from harness.core import gz, gbool, glist, gnat
+from harness import core
+
+
+def gstr(s):
+    """Gallina string literal; non-ASCII names as their UTF-8 bytes (Coq strings are byte strings: injective)."""
+    if all(32 <= ord(c) < 127 for c in s):
+        return core.gstr(s)
+    assert '"' not in s and all(ord(c) >= 32 for c in s), s
+    return '"' + s + '"%string'
 
 OPSTR = {"GE": ">=", "LE": "<=", "GT": ">", "LT": "<", "EQ": "=", "EQ2": "=="}
 OPBACK = {">=": "GE", "<=": "LE", ">": "GT", "<": "LT", "=": "EQ", "==": "EQ2"}
@@ -251,8 +260,14 @@ class Builder:
         return self.binds
 
 
+# names that are prefixes / suffixes of each other, that look like the internal ones, non-ASCII letters and digits
+NAME_POOLS = [["a", "b", "c", "d", "e", "f"], ["a", "b", "c", "d", "e", "f"], ["a", "b", "c", "d", "e", "f"],
+              ["x", "x1", "x10", "x_1", "x1_0", "X"], ["aux", "aux_", "robdd", "robdd_x", "def_", "0"],
+              ["\u00e9", "\u00e91", "\u03b1\u03b2", "\u0661", "z", "\u00e9_\u00e9"]]
+
+
 def gen_small(rng, names=None, n=None):
-    names = names or ["a", "b", "c", "d", "e", "f"][:rng.choice([2, 3, 3, 4, 6])]
+    names = names or rng.choice(NAME_POOLS)[:rng.choice([2, 3, 3, 4, 6])]
     n = n or rng.choice([6, 10, 14, 18, 24, 30, 40])
     b = Builder(rng, names)
     return b.grow(n)
